@@ -62,4 +62,18 @@ META['C16'] = {
   'level_text': 'Proved: the verifier accumulators (insertNode at height 0 / AddLeaf) maintain a forest of perfect trees over exactly the inserted leaves (digit i of height i, count = numeral value); Merkle path completeness and soundness (mod exhibited node collision) inside a perfect tree. The executable model of MetaRoot, range/append/diff/free proofs, sizes and ConvertProofOrdering reproduces every Go result on exhaustive small and random inputs incl. all single-element corruptions. Partial: the general completeness/soundness theorems for the range/diff algorithms over the plain tree are not yet proved.',
 }
 
+META['C14'] = {
+  'rule': ('(a) small trees enumerated: 8 leaf kinds (above at/over the height, after before/at the median, two public keys, hash lock, opaque) alone, all ordered pairs under thresholds n=0..2, and nested thresholds, '
+           'each with witness assignments: valid, first signature missing, last signature corrupted, two signatures reordered, preimage missing/corrupted, surplus signature, surplus preimage; '
+           '(b) random policies of depth <= 3 over all 7 kinds incl. legacy unlock conditions (entropy/unknown algorithms, short keys, wrong counts) at heights/times around each lock with real Ed25519 keys; '
+           '(c) complexity limits (255/256/300 children, 1000/1250/1500 total); (d) Address of every threshold vs. random opaque substitutions, StandardAddress/StandardUnlockHash. '
+           'Each Verify result (accept / error class) is recomputed by the extracted model with signature/preimage oracle tables filled from the real ed25519/sha256; addresses recomputed byte for byte. '
+           'Go-side oracle: an independently written evaluator of the policy meaning'),
+  'trusted_base': [KERNEL, EXTRACT, HARNESS, BLAKE,
+                   'Ed25519 verification and SHA-256 are oracles (section variables in the theorems, tables filled from the real functions in the correspondence)',
+                   'the two 16-byte specifiers ed25519/entropy are constants in Extract/Api.v'],
+  'assumptions': ['a single biconditional verify <-> declarative satisfaction relation is not yet proved; the proved statements are the individual clauses of the property (locks, one witness per leaf, threshold exactness, unlock-condition counts, no leftovers, opaque address invariance and unusability, limits)'],
+  'level_text': 'Proved for all policies/inputs over arbitrary signature and preimage oracles: opaque substitution never changes a threshold address; opaque branches are unusable; height/time locks compare as >= and strictly-after; each key/hash leaf consumes exactly one valid witness and rejects a corrupt one; an accepted threshold has exactly N revealed children and no unlock-conditions child; accepted unlock conditions consumed exactly SignaturesRequired signatures against at most that many listed keys after the timelock; no witness is left over; complexity limits reject. The Go Verify/Address are tied to the model by recomputing accept/error-class and address bytes on enumerated small trees and random policies.',
+}
+
 NOT_YET = {}
